@@ -66,7 +66,8 @@ func Rotation(radians fl) Transform {
 
 // Skew returns a skew transformation
 func Skew(thetax, thetay fl) Transform {
-	b, c := fl(math.Tan(float64(thetax))), fl(math.Tan(float64(thetay)))
+	// skewing along the X axis moves x by tan(thetax)*y, which is the C entry
+	c, b := fl(math.Tan(float64(thetax))), fl(math.Tan(float64(thetay)))
 	return Transform{1, b, c, 1, 0, 0}
 }
 
